@@ -211,7 +211,7 @@ def fetchChunk (st : NodeState) (id : Bytes) (rk : Bytes) : Outcome (Option Byte
       | none => .value none
       | some (shards, threshold) =>
         match Shamir.combine shards threshold with
-        | .invalidArgument => .threw
+        | .invalidArgument => if C11.fetchCombineFailure == "nullopt" then .value none else .threw
         | .hang => .hang
         | .ok keyN =>
           .value (ChaCha20.decrypt_with_key (ofNats keyN)
@@ -234,6 +234,10 @@ deriving Repr, DecidableEq
 def Recv.isAccepted : Recv → Bool
   | .accepted _ => true
   | _ => false
+
+/-- what the caller sees when `Shamir::combine` throws: "nullopt" = the call is wrapped in `try { … } catch (…) { return
+    std::nullopt; }` (the repaired Node.cpp), anything else = the exception leaves the function -/
+def onCombineFailure (role : String) : Recv := if role == "nullopt" then .rejected else .threw
 
 /-- the manifest field an argument expression of the source denotes -/
 def manifestBytes (m : Manifest) (arg : String) : Bytes :=
@@ -272,7 +276,7 @@ def receiveChunk (cfg : Config) (st : NodeState) (wallNowNs : Int) (decoded : Op
       | none => (st, .rejected)
       | some ttl =>
         match Shamir.combine m.shards (manifestNat m C11.receiveCombineThresholdArg) with
-        | .invalidArgument => (st, .threw)
+        | .invalidArgument => (st, onCombineFailure C11.receiveCombineFailure)
         | .hang => (st, .hang)
         | .ok keyN =>
           match ChaCha20.decrypt_with_key (ofNats keyN) (manifestBytes m C11.receiveDecryptIdArg) ciphertext
@@ -292,7 +296,7 @@ def decryptChunkWithManifest (m : Manifest) (data : Bytes) (rk : Bytes) : Recv :
   if m.threshold = 0 ∨ m.shards.length < m.threshold then .rejected
   else
     match Shamir.combine m.shards (manifestNat m C11.cliCombineThresholdArg) with
-    | .invalidArgument => .threw
+    | .invalidArgument => onCombineFailure C11.cliCombineFailure
     | .hang => .hang
     | .ok keyN =>
       match ChaCha20.decrypt_with_key (ofNats keyN) (manifestBytes m C11.cliDecryptIdArg) data
